@@ -91,3 +91,12 @@ claim('C10', 'model_checking',
       'violation). Long histories and every (generator kind x repositioning / interleaving / query-in-between) pattern are replayed on 8-18 corpus files.',
       'pruning hypothesis: hidden state = projected caches + generator frames + stream positions; bounded depth (4-5 calls) for exhaustive exploration, '
       'longer histories only by seeded simulation; truth for corpus files is the same query on a fresh object', 'DESIGN.md 5/C10')
+claim('C07', 'model_checking',
+      'TLA+ DW_LLE/DW_RLE entry tables, v2-4 pair format, v5 unit blocks with offset tables, address table and attribute classification '
+      '(spec/LocRange.tla) model-checked by TLC (RoundTrip by a byte-level list reader, ListEndsAtTerminator, IndexResolves, BlocksTile, '
+      'ClassifyTotal); emitted sections + minimal units replayed into LocationLists/RangeLists/LocationParser',
+      'TLC enumerates every entry kind x operand class x address size x byte order x format, lists of <= 3-4 entries, sections of 1..3 unit blocks with '
+      'offset_entry_count in {0,1,3}, gaps and view pairs, attributes in every list-capable form, and the classification cube; the byte-level '
+      'reader is checked against the writer on the specification; each case is replayed through every fetch/enumeration API.',
+      'trusts TLC and the transcription of DWARF 2.6/2.17/7.7.3/7.25/7.28/7.29 and the attribute class tables; one address size per file; '
+      'enumeration order not asserted; rows the class tables leave open are set-valued', 'DESIGN.md 5/C07')
